@@ -5,6 +5,7 @@ import (
 	"sync/atomic"
 
 	"github.com/goghcrow/yae/util"
+	"github.com/goghcrow/yae/verifhook"
 )
 
 // TyVar 新建 Type Variable
@@ -12,6 +13,7 @@ import (
 var TyVar = func() func(name string) *Type {
 	var n int64
 	return func(name string) *Type {
+		verifhook.Atomic(&n, "types.TyVar")
 		id := atomic.AddInt64(&n, 1)
 		t := TypeVariable{Type{KTyVar}, name + strconv.FormatInt(id, 10)}
 		return &t.Type
